@@ -309,6 +309,18 @@ func (rn *runner) battery(in, mir *rinst, silent bool, frame bool) {
 			}
 			kv := []string{"ev", js("serve"), "method", js(m), "path", js(p.Path), "wit", js(p.Wit), "wps", jmap(p.Wps),
 				"r", replyJSON(o), "hasPrev", jbool(hasPrev), "prev", prev}
+			// C08: what the same path answers to the derived methods, recorded next to a served route
+			if o.kind == "route" && o.panicKind == "none" && rn.pool.Link {
+				oo := in.e.serve(in.r, mkRequest("OPTIONS", p.Path, "", nil))
+				other := "HEAD"
+				if m == "HEAD" {
+					other = "GET"
+				}
+				oh := in.e.serve(in.r, mkRequest(other, p.Path, "", nil))
+				kv = append(kv, "hasLink", "true", "link", obj("optk", js(oo.kind), "optpat", js(oo.pat), "other", js(other), "ok", js(oh.kind), "oh", js(oh.h), "opat", js(oh.pat)))
+			} else {
+				kv = append(kv, "hasLink", "false")
+			}
 			if mir != nil {
 				o2 := mir.e.serve(mir.r, mkRequest(m, p.Path, "", nil))
 				kv = append(kv, "hasMirror", "true", "mirror", replyJSON(o2))
@@ -537,7 +549,7 @@ func (rn *runner) runRouterCase(c *Case) {
 			o := in.e.serve(in.r, mkRequest(op.Method, op.Path, op.Host, op.Hdr))
 			rn.stats.exec++
 			rn.emit(obj("ev", js("serve"), "method", js(op.Method), "path", js(op.Path), "wit", js(""), "wps", "{}",
-				"r", replyJSON(o), "hasPrev", "false", "prev", emptyPrev, "hasMirror", "false"))
+				"r", replyJSON(o), "hasPrev", "false", "prev", emptyPrev, "hasMirror", "false", "hasLink", "false"))
 		default:
 			panic("unknown router op " + op.Op)
 		}
